@@ -1,2 +1,7 @@
 import Driver.Ver
 import Driver.Rx
+import Driver.Spec
+
+/-- every driver operation; each model area contributes its own table -/
+def allDriverOps : List (String × (List String → String)) :=
+  DriverVer.ops ++ DriverRx.ops ++ DriverSpec.ops
